@@ -23,6 +23,8 @@ type Ctx struct {
 	NCases     int
 	NOracle    int
 	Fails      []OracleFail
+	NFailed    int
+	failsBySig map[string]int
 	Hist       map[string]int
 	Samples    []string
 	Distinct   map[string]struct{}
@@ -55,9 +57,27 @@ func (c *Ctx) Count(key string) { c.Hist[key]++ }
 // Check records the verdict of a direct oracle (the property itself evaluated on one concrete case).
 func (c *Ctx) Check(ok bool, oracle, sig, detail string, input interface{}) {
 	c.NOracle++
-	if !ok && len(c.Fails) < 200 {
-		c.Fails = append(c.Fails, OracleFail{oracle, sig, detail, input})
+	if !ok {
+		// at most 12 recorded failures per signature (and 3000 in all): a frequent failure - e.g. a known finding - must
+		// not crowd out a different one
+		if c.failsBySig == nil {
+			c.failsBySig = map[string]int{}
+		}
+		c.failsBySig[sig]++
+		c.NFailed++
+		if c.failsBySig[sig] <= 12 && len(c.Fails) < 3000 {
+			c.Fails = append(c.Fails, OracleFail{oracle, sig, detail, input})
+		}
 	}
+}
+
+// FailCounts returns the number of failed oracle checks per signature (all of them, not only the recorded ones).
+func (c *Ctx) FailCounts() map[string]int {
+	o := map[string]int{}
+	for k, v := range c.failsBySig {
+		o[k] = v
+	}
+	return o
 }
 
 func (c *Ctx) Quick() bool { return c.Tier != "thorough" }
